@@ -26,40 +26,43 @@ open Qfx Qfx.Conc
 
 /-! ## (A) the concurrent layer -/
 
-/-- programs built from the entry points are well-formed: thread 0 any list of session calls, the others any number
-    of `queueForSend` calls -/
-theorem C02_compile_wf (p : Bool) (sess : List SCall) (apps : Nat → Nat) (t : Nat) :
+/-- programs built from the entry points are well-formed: thread 0 any list of session calls, every other thread any
+    sequence of `SendToTarget` (`queueForSend`) and `ResetSession` calls (ShutdownNow's Logout through either branch of
+    `sendInReplyTo`, or nothing, then `dropAndReset`) -/
+theorem C02_compile_wf (p : Bool) (sess : List SCall) (apps : Nat → List ACall) (t : Nat) :
     wf (t == 0) p ⟨.free, .none⟩ (compile p sess apps t) = true := by
   cases t with
   | zero => simp [wf, compile, wfTo_sess]
-  | succ i => simp [wf, compile, wfTo_appProg]
+  | succ i => simp [wf, compile, wfTo_apps]
 
 /-! ### the theorem -/
 
 /-- **C02, all schedules, any well-formed thread programs.**  Whatever the programs of the threads are, as long as each
-    respects the lock discipline `wf` (numbering, queue and store are touched only inside `sendMutex`; an application
-    thread takes `sendMutex` only inside `resendMutex.RLock`; only the session goroutine replays, resets the store or
-    sends without `resendMutex`), the monitor accepts the trace of EVERY schedule. -/
+    respects the lock discipline `wf` (numbering, queue and store are touched only inside `sendMutex`; a foreign
+    goroutine enqueues a first-time message only inside `resendMutex.RLock`; only the session goroutine replays or sends
+    without `resendMutex`; a store reset leaves `sendMutex` only after the queue has been dropped), the monitor accepts
+    the trace of EVERY schedule. -/
 theorem C02_all_schedules_wf (p : Bool) (n0 : Nat) (hn : 0 < n0) (progs : Nat → List Step)
     (hwf : ∀ t, wf (t == 0) p ⟨.free, .none⟩ (progs t) = true) (sched : List Nat) :
     MonitorC02 p n0 (run (initRaw n0 progs) sched).trace = true :=
   (inv_run sched (inv_init hn hwf)).monitor
 
 /-- **C02, all schedules of the real entry points.**  Thread 0 runs any sequence of session-side calls (with any flush
-    outcomes, logged-on flags, replay contents), thread i+1 calls `queueForSend` `apps i` times — any number of threads,
-    any numbers of calls; `sched` is any interleaving of any length (a scheduled thread that is blocked on a mutex or has
+    outcomes, logged-on flags, replay contents), thread i+1 runs the calls `apps i` — `SendToTarget` and the operator's
+    `ResetSession` (whose Logout is a first-time message sent from a FOREIGN goroutine, and whose reset is an epoch
+    boundary for the monitor) in any number and order, any number of threads; `sched` is any interleaving of any length (a scheduled thread that is blocked on a mutex or has
     finished does nothing).  Then: (i) the numbers handed out are consecutive without gap or repeat and the store's
     next number is one past the last; (ii) first-time messages reach the wire in increasing order (per epoch);
     (iii) with persistence every first-time write of n comes after the store saved n; (iv) between the first replayed
     message of a replay and the release of `resendMutex` no first-time message is written. -/
-theorem C02_all_schedules (persist : Bool) (n0 : Nat) (hn : 0 < n0) (sess : List SCall) (apps : Nat → Nat)
+theorem C02_all_schedules (persist : Bool) (n0 : Nat) (hn : 0 < n0) (sess : List SCall) (apps : Nat → List ACall)
     (sched : List Nat) :
     MonitorC02 persist n0 (run (init persist n0 sess apps) sched).trace = true :=
   C02_all_schedules_wf persist n0 hn _ (C02_compile_wf persist sess apps) sched
 
 /-- at the end of every schedule the store is what the monitor computed from the trace: next outbound number one past
     the numbers handed out, saved numbers exactly the ones the trace saved in this epoch -/
-theorem C02_final_store (persist : Bool) (n0 : Nat) (hn : 0 < n0) (sess : List SCall) (apps : Nat → Nat)
+theorem C02_final_store (persist : Bool) (n0 : Nat) (hn : 0 < n0) (sess : List SCall) (apps : Nat → List ACall)
     (sched : List Nat) :
     monitorFinal persist n0 (run (init persist n0 sess apps) sched).trace
       = some ((run (init persist n0 sess apps) sched).sender, (run (init persist n0 sess apps) sched).persisted) := by
@@ -69,7 +72,7 @@ theorem C02_final_store (persist : Bool) (n0 : Nat) (hn : 0 < n0) (sess : List S
 
 /-- mutual exclusion, as a state fact: after any schedule at most the session goroutine writes `resendMutex`, and then
     nobody reads it -/
-theorem C02_resend_lock_exclusive (persist : Bool) (n0 : Nat) (hn : 0 < n0) (sess : List SCall) (apps : Nat → Nat)
+theorem C02_resend_lock_exclusive (persist : Bool) (n0 : Nat) (hn : 0 < n0) (sess : List SCall) (apps : Nat → List ACall)
     (sched : List Nat) (w : Nat) (h : (run (init persist n0 sess apps) sched).writerR = some w) :
     w = 0 ∧ (run (init persist n0 sess apps) sched).readersR = [] := by
   obtain ⟨m, hI⟩ := inv_run sched (inv_init hn (C02_compile_wf persist sess apps))
@@ -87,7 +90,7 @@ def demoSess : List SCall :=
 def demoSched : List Nat := (List.replicate 24 [1, 2, 0, 2, 1, 0, 0]).flatten
 
 set_option maxRecDepth 100000 in
-example : (run (init true 1 demoSess (fun _ => 2)) demoSched).trace =
+example : (run (init true 1 demoSess (fun _ => sends 2)) demoSched).trace =
     [.assign 1 2 true, .wire 1 .first, .assign 2 3 true, .wire 2 .first, .assign 3 4 true, .assign 4 5 true,
      .assign 5 6 true, .lockR, .wire 3 .first, .wire 4 .first, .wire 5 .first, .wire 2 (.dup 1), .wire 3 (.dup 1),
      .unlockR, .assign 6 7 true, .wire 6 .first] := by decide
@@ -124,6 +127,31 @@ theorem C02_false_with_late_persist :
       (run (initRaw 1 (fun t => if t = 0 then prog_sendInReplyTo_persistLate else [])) [0, 0, 0, 0, 0]).trace
       = some "C02.persist_before_wire" := by decide
 
+/-- `ResetSession` whose `sendInReplyTo` (logged-on branch) takes `sendMutex` but NOT `resendMutex.RLock` -/
+def prog_resetSession_noR : List Step :=
+  [.lockS, .readSeq, .persistIncr, .enqueue, .flush none, .unlockS] ++ prog_dropAndReset
+
+/-- … an operator calling ResetSession in the middle of a replay puts the Logout between two replayed messages -/
+theorem C02_false_without_RLock_in_sendInReplyTo :
+    monitorVerdict true 1
+      (run (initRaw 1 (fun t => if t = 0 then
+              (SCall.resendMessages [⟨true, 1, none⟩, ⟨true, 2, none⟩]).prog true else
+              if t = 1 then prog_resetSession_noR else []))
+        [0, 0, 0, 0, 0, 1, 1, 1, 1, 1]).trace
+      = some "C02.replay_exclusive" := by decide
+
+/-- with the RLock the same operator waits for the replay to end: the Logout (number 5) follows the two replayed
+    messages, then the reset starts a new epoch and the next application message is number 1 again (5 was queued by
+    thread 2 before the replay and is flushed by its first EnqueueBytesAndSend, ahead of the replayed messages) -/
+def demoResetSched : List Nat :=
+  [2,2,2,2,2,2,2,2, 0,0,0,0,0, 1,1,1, 0,0,0,0,0,0,0,0,0, 1,1,1,1,1,1,1,1,1,1,1,1, 2,2,2,2,2,2,2,2, 0,0,0]
+set_option maxRecDepth 100000 in
+example : (run (init true 5 [.resendMessages [⟨true, 1, none⟩, ⟨true, 2, none⟩], .sendAppMessages true none]
+              (fun i => if i = 0 then [.resetSession (.logout true none)] else if i = 1 then sends 2 else [])) demoResetSched).trace =
+    [.assign 5 6 true, .lockR, .wire 5 .first, .wire 1 (.dup 1), .wire 2 (.dup 1), .unlockR, .assign 6 7 true,
+     .wire 6 .first, .reset, .assign 1 2 true] := by decide
+
+example : wf false true ⟨.free, .none⟩ prog_resetSession_noR = false := by decide
 /-- the three broken programs are rejected by the discipline, as they must be -/
 example : wf false true ⟨.free, .none⟩ prog_queueForSend_noS = false := by decide
 example : wf false true ⟨.free, .none⟩ prog_queueForSend_noR = false := by decide
@@ -139,9 +167,17 @@ theorem C02_skel_queueForSend (o : Opts) :
     expand .queueForSend { o with reset := false } Gen.skel_queueForSend = some (prog_queueForSend o.persist) := by
   obtain ⟨p, r, l, lim, n⟩ := o; cases p <;> rfl
 
+/-- both branches: `if !IsLoggedOn { return queueForSend }`, then RLock, Lock, prep, enqueue, flush -/
 theorem C02_skel_sendInReplyTo (o : Opts) :
-    expand .sendInReplyTo { o with reset := false } Gen.skel_sendInReplyTo = some (prog_sendInReplyTo o.persist o.lim) := by
-  obtain ⟨p, r, l, lim, n⟩ := o; cases p <;> rfl
+    expandSendInReplyTo { o with reset := false } Gen.skel_sendInReplyTo
+      = some (prog_sendInReplyToFull o.persist o.loggedOn o.lim) := by
+  obtain ⟨p, r, l, lim, n⟩ := o; cases p <;> cases l <;> rfl
+
+/-- `quickfix.ResetSession` = ShutdownNow; dropAndReset — and ShutdownNow is either empty or sendLogout →
+    sendLogoutInReplyTo → sendInReplyTo; no other implementation of ShutdownNow exists -/
+theorem C02_skel_resetSession :
+    resetSessionShapeOK Gen.skel_resetSession Gen.skel_shutdownNow_loggedOn Gen.skel_shutdownNow_notLoggedOn
+      Gen.skel_shutdownNow_latent Gen.skel_sendLogout Gen.skel_sendLogoutInReplyTo Gen.shutdownNowImpls = true := by decide
 
 theorem C02_skel_dropAndSendInReplyTo (o : Opts) :
     expand .dropAndSendInReplyTo o Gen.skel_dropAndSendInReplyTo
